@@ -481,7 +481,7 @@ Lemma redo_st_update a b name rowid cols vals b1 ws :
   Rel a b -> st_update b name rowid cols vals = (b1, Ok ws) ->
   exists a1, replay a ws = RCont a1 /\ Rel a1 b1.
 Proof.
-  intros HR. unfold st_update.
+  intros HR. unfold st_update. destruct (is_sys_table name); [discriminate|].
   destruct (rel_offset b name) as [off|e|]; cbn [bind]; try discriminate.
   destruct (get_tree b off) as [t|e|] eqn:Eg; cbn [bind]; try discriminate.
   destruct (rel_schema b name) as [sch|e|]; cbn [bind]; try discriminate.
@@ -517,7 +517,7 @@ Lemma redo_st_delete a b name rowid b1 ws :
   Rel a b -> st_delete b name rowid = (b1, Ok ws) ->
   exists a1, replay a ws = RCont a1 /\ Rel a1 b1.
 Proof.
-  intros HR. unfold st_delete.
+  intros HR. unfold st_delete. destruct (is_sys_table name); [discriminate|].
   destruct (rel_offset b name) as [off|e|]; cbn [bind]; try discriminate.
   destruct (get_tree b off) as [t|e|] eqn:Eg; try discriminate.
   destruct (get_tree_in _ _ _ Eg) as [Hin _].
@@ -572,7 +572,8 @@ Lemma redo_root_move_pair a1 b1 oldroot newroot name lsn b2 ws :
     exists pg key bs,
       w2 = mkWal OpUpdate (lsn + 1) pg key bs /\
       Rel ah (set_forest b1 (touch_forest pg key lsn (upd_fun bs) (forest b1))) /\
-      forest b2 = touch_forest pg key (lsn + 1) (upd_fun bs) (forest b1).
+      forest b2 = touch_forest pg key (lsn + 1) (upd_fun bs) (forest b1) /\
+      ptRoot b2 = ptRoot b1 /\ nextFree b2 = nextFree b1.
 Proof.
   intros HR Hlsn Hnl Hmv. unfold update_page_table, redo_root_move.
   pose proof (seq_cat_scan_off a1 b1 oldroot (rel_seq _ _ HR)) as Hcs.
@@ -602,7 +603,7 @@ Proof.
   split; [reflexivity|]. split; [reflexivity|]. split; [exact Hr|]. split.
   - cbn [bh set_forest forest lastKey ptRoot nextFree] in HR2.
     rewrite touch_forest_twice in HR2 by (apply upd_fun_key || apply upd_fun_idem). exact HR2.
-  - exists pg, (lc_key c), bs. split; [reflexivity|]. split; [exact HRh | reflexivity].
+  - exists pg, (lc_key c), bs. split; [reflexivity|]. split; [exact HRh|]. repeat split; reflexivity.
 Qed.
 
 (* ---------- RelationService.Insert ---------- *)
@@ -618,6 +619,7 @@ Definition ins_prelude (s : store) (name : string) (cols : list string) (vals : 
 (* if this row's insert moves the root of its table, the catalog row rewritten is the one redo
    finds (see move_ok) *)
 Definition row_move_ok (s : store) (name : string) (cols : list string) (vals : list value) : Prop :=
+  if is_sys_table name then True else
   match ins_prelude s name cols vals with
   | Ok (off, bs) =>
       match bt_insert s off bs with
@@ -631,20 +633,20 @@ Definition row_move_ok (s : store) (name : string) (cols : list string) (vals : 
 Lemma st_insert_shape b name cols vals b2 ws :
   st_insert b name cols vals = (b2, Ok ws) ->
   exists off bs b1 k lsn newroot,
-    ins_prelude b name cols vals = Ok (off, bs) /\
+    is_sys_table name = false /\ ins_prelude b name cols vals = Ok (off, bs) /\
     bt_insert b off bs = (b1, Ok (k, lsn, newroot)) /\
     ((newroot = off /\ b2 = b1 /\ ws = [mkWal OpInsert lsn off k bs]) \/
      (newroot <> off /\ exists ws', update_page_table b1 newroot name = (b2, Ok ws') /\
                                     ws = mkWal OpInsert lsn off k bs :: ws')).
 Proof.
-  unfold st_insert. fold (ins_prelude b name cols vals).
+  unfold st_insert. destruct (is_sys_table name) eqn:Esys; [discriminate|]. fold (ins_prelude b name cols vals).
   destruct (ins_prelude b name cols vals) as [[off bs]|e|]; try discriminate.
   destruct (bt_insert b off bs) as [b1 [[[k lsn] nr]|e|]] eqn:Eb; try discriminate.
   destruct (N.eqb_spec nr off) as [E|E].
   - intros H. inversion H; subst. exists off, bs, b2, k, lsn, off.
-    split; [reflexivity|]. split; [exact Eb|]. left. auto.
+    split; [reflexivity|]. split; [reflexivity|]. split; [exact Eb|]. left. auto.
   - destruct (update_page_table b1 nr name) as [s2 [ws'|e|]] eqn:Eu; try discriminate.
-    intros H. inversion H; subst. exists off, bs, b1, k, lsn, nr. split; [reflexivity|]. split; [exact Eb|].
+    intros H. inversion H; subst. exists off, bs, b1, k, lsn, nr. split; [reflexivity|]. split; [reflexivity|]. split; [exact Eb|].
     right. split; [exact E|]. exists ws'. auto.
 Qed.
 
@@ -653,8 +655,8 @@ Lemma redo_st_insert a b name cols vals b2 ws :
   exists a2, replay a ws = RCont a2 /\ Rel a2 b2.
 Proof.
   intros HR Hok Hst.
-  destruct (st_insert_shape _ _ _ _ _ _ Hst) as (off & bs & b1 & k & lsn & nr & Hpre & Hbt & Hcase).
-  unfold row_move_ok in Hok. rewrite Hpre, Hbt in Hok.
+  destruct (st_insert_shape _ _ _ _ _ _ Hst) as (off & bs & b1 & k & lsn & nr & Hsys & Hpre & Hbt & Hcase).
+  unfold row_move_ok in Hok. rewrite Hsys, Hpre, Hbt in Hok.
   destruct (redo_insert a b off bs b1 k lsn nr HR Hbt) as (Hl & Hnl & a1 & HR1 & Hlt & Hrep).
   destruct Hcase as [(-> & -> & ->)|(Hne & ws' & Hup & ->)].
   - rewrite N.eqb_refl in Hrep. exists a1. split; [|exact HR1]. cbn [replay]. rewrite Hrep. reflexivity.
